@@ -95,7 +95,8 @@ constexpr bool is_perfect_square(uint64_t n) {
     uint64_t prev = n / 2u;
     while (true) {
         const uint64_t curr = (prev + n / prev) / 2u;
-        if (curr * curr == n) {
+        // Test for `curr * curr == n` by division: the product itself can wrap around for large `n`.
+        if ((n / curr == curr) && (n % curr == 0u)) {
             return true;
         }
         if (curr >= prev) {
